@@ -52,11 +52,25 @@ def gen_cases(ctx):
       # absolute ridge: keep the regularised condition number within the quantifier (<= ~1e8)
       c["scale"] = 10.0 ** rng.rint(-3, 2)
     cases.append(c)
+  # LOBPCG-deflated Newton (part of the property's quantifier; jax's lobpcg needs dim > 5 k): the
+  # result must be the root of the ORIGINAL matrix + ridge, where the ridge is epsilon * (largest LOBPCG
+  # eigenvalue) for the relative and epsilon itself for the absolute setting (added after a seeded
+  # change that scaled the absolute ridge by the LOBPCG eigenvalue was missed)
+  for i in range(12 if quick else 90):
+    n = rng.rint(6, 8)
+    c = dict(seed=rng.next(), n=n, kind="spec", p=rng.choice([1, 2, 4] if quick else ps),
+             eps=rng.choice([1e-6, 1e-3, 1e-2]), relative=bool(i % 2), eigh=False, pad=rng.choice([0, 0, 1]),
+             scale=10.0 ** rng.rint(-3, 2), rank=rng.rint(2, n), spread=10.0 ** rng.rint(0, 4), lobpcg=1)
+    cases.append(c)
   return cases
 
 
 def ridge_used(r):
   c = r["case"]
+  if c.get("lobpcg"):
+    # error and result refer to original_matrix + ridge (no retry factor); relative: the metric is the
+    # largest LOBPCG eigenvalue (stored as float32)
+    return c["eps"] * (max(r["maxev_metric"], 1e-25) if c["relative"] else 1.0)
   if c["eigh"]:
     return c["eps"] * max(r["maxev"], 1e-6)
   retries = int(r["retries"])
@@ -95,7 +109,11 @@ def terms_for(r, an):
     # structural part only (float32 inputs, or error above the acceptance threshold)
     out.append(("struct", "if is_square %d%%nat (dymat %s) && zero_outside %d%%nat (dymat %s) then 0%%Z else 1%%Z"
                 % (N, dymat(r["X"]), s, dymat(r["X"]))))
-  if c["relative"] and "maxev" in r:
+  if c["relative"] and c.get("lobpcg"):
+    # the LOBPCG estimate (float32 metric) must not exceed the true largest eigenvalue
+    out.append(("maxev", "if maxev_ok %s %s %s %d%%nat (dymat %s) then 0%%Z else 1%%Z" % (
+        "(1 # 1048576)", q(r["maxev_metric"]), q(an["lam_ub"]), N, dymat(masked(r)))))
+  elif c["relative"] and "maxev" in r:
     eps = "(1 # 1099511627776)"   # float64 estimate: (1 + 2^-40)
     out.append(("maxev", "if maxev_ok %s %s %s %d%%nat (dymat %s) then 0%%Z else 1%%Z" % (
         eps, q(r["maxev"]), q(an["lam_ub"]), N, dymat(r["A"]))))
@@ -155,7 +173,7 @@ def impl_oracle(r, an):
           bad.append("retry loop continued after an attempt with error <= 0.05")
       if tries < 6 and os_[-1][1] > 0.05:
         bad.append("retry loop stopped early although the last error exceeds 0.05")
-    if c["relative"] and abs(r["maxev_metric"] - r["maxev"]) > 2.0 ** -22 * abs(r["maxev"]) + 1e-300:
+    if c["relative"] and not c.get("lobpcg") and abs(r["maxev_metric"] - r["maxev"]) > 2.0 ** -22 * abs(r["maxev"]) + 1e-300:
       bad.append("max_eigen_value metric disagrees with power_iteration (float32 rounding aside)")
   return bad
 
